@@ -3,6 +3,7 @@
 package tun
 
 import (
+	"time"
 	"testing"
 
 	"pgregory.net/rapid"
@@ -11,6 +12,7 @@ import (
 
 func TestC09B(t *testing.T) {
 	rec := common.NewRec("C09", "bubble")
+	bubbleWD = common.NewWatchdog(rec, 90*time.Second)
 	completed := false
 	defer func() { rec.Finish(completed) }()
 	run := func(p *Plan) *common.Fail {
